@@ -139,11 +139,7 @@ func (l *linkedNode) flatten() map[NodeID]struct{} {
 		node := stack[len(stack)-1]
 		stack = stack[:len(stack)-1]
 
-		// Skip already flattened nodes
-		if _, ok := flattened[node.nodeID]; ok {
-			continue
-		}
-
+		// A node ID may be listed more than once; its children still need visiting.
 		flattened[node.nodeID] = struct{}{}
 
 		for _, child := range node.next {
